@@ -331,11 +331,11 @@ func genInjectSuite(r *hx.R, tier, scratch, prop string) (*hx.Suite, error) {
 	s := &hx.Suite{Property: prop, Imports: []string{"Base", "SpecModel", "Oci", "Apply", "Cache", "InjectSpec", "Judge02"}, CaseType: "case02", Judge: "judge02", Shard: 40}
 	switch prop {
 	case "C02":
-		s.Rule = "caches of 1-4 Spec directories with 0-4 entries each (spec-level and device edits of every kind: env, hooks, mounts, device nodes incl. nodes completed from real host nodes), shadowing and conflicts; random initial OCI specs; requests = ordered selections of distinct resolvable devices interleaving files; non-trivial = at least two devices requested, of which two resolve to the same file or two to different files"
+		s.Rule = "caches of 1-4 Spec directories with 0-4 entries each (spec-level and device edits of every kind: env, hooks, mounts, device nodes incl. nodes completed from real host nodes), shadowing and conflicts; random initial OCI specs; requests = ordered selections of distinct resolvable devices interleaving files, handed over as a copy whose integrity is observed; caches of their own (manual / automatic refresh) and the default cache through the package-level functions; non-trivial = at least two devices requested, of which two resolve to the same file or two to different files"
 	case "C04":
-		s.Rule = "same caches; requests mixing resolvable names with unknown, malformed, shadowed and conflict-removed names, with repetitions, on non-empty OCI specs and on a nil OCI spec; non-trivial = the request contains a resolvable and an unresolvable name"
+		s.Rule = "same caches; requests mixing resolvable names with unknown, malformed, shadowed and conflict-removed names, with repetitions, near misses of resolvable names (case, blanks, one character more or less), on non-empty OCI specs and on a nil OCI spec, plus 24 corner requests taken in turn (the only miss is the empty string, 8 / 9 / 10 misses, nil OCI spec with each kind of request, the empty request ...); non-trivial = the request contains a resolvable and an unresolvable name"
 	default:
-		s.Rule = "same caches; histories of 2-5 injections of one request into equal OCI specs with the host device nodes re-created (other type/major/minor) between some of them; the cached Specs and devices are compared (JSON image through the query API) with those before the first injection and every cached Spec is written back through the library and read back; non-trivial = some injected device node takes attributes from a host node"
+		s.Rule = "same caches; histories of 2-5 injections of one request into equal OCI specs with the host device nodes re-created (other type/major/minor, or gone, or a regular file, or a symbolic link) between some of them, the Spec files changed behind the cache's back or re-read unchanged; the cached Specs and devices are compared (JSON image through the query API) with those before the first injection and every cached Spec is written back through the library and read back; non-trivial = some injected device node takes attributes from a host node"
 	}
 	devDir := filepath.Join(scratch, "hostdev")
 	hosts, mknodOK := makeHostNodes(r, devDir)
